@@ -9,6 +9,8 @@ CHECKS['C04'] = queuechecks.run_c04
 CHECKS['C05'] = queuechecks.run_c05
 CHECKS['C06'] = queuechecks.run_c06
 CHECKS['C09'] = agentchecks.run_c09
+CHECKS['C07'] = agentchecks.run_c07
+CHECKS['C08'] = agentchecks.run_c08
 
 
 def replay(prop, path):
